@@ -21,10 +21,13 @@ def check_case(ctx, cs):
         tg = tags_of(sh0) + ["after_" + hist[0]["a"], "multi_direction", "dirs=" + "".join("uvw"[d] for d, p in enumerate(st["prm"]) if p != [])]
     small = {"deg": sh0["deg"], "kv": sh0["kv"], "rat": sh0["rat"], "hist": hist}
     ctx.count(c04.hist_key(cs), sample={"sh0": {k: sh0[k] for k in ("deg", "kv", "size", "rat")}, "hist": hist, "expected_kv": exp["kv"]})
-    for via in ("operations", "method"):
-        site = ("operations." if via == "operations" else "%s." % KIND[len(sh0["deg"])].capitalize()) + "remove_knot"
+    tg0 = tg
+    for via in ("operations", "method", "tiny", "huge"):
+        site = ("%s." % KIND[len(sh0["deg"])].capitalize() if via == "method" else "operations.") + "remove_knot"
+        conj = {"tiny": 2.0 ** -40, "huge": 2.0 ** 20}.get(via)      # (the same history in a very small / very large unit)
+        tg = tg0 + (["coordinates=" + via] if conj is not None else [])
         try:
-            obj, infos = replay_history(sh0, hist, via)
+            obj, infos = replay_history(sh0, hist, "operations" if conj is not None else via, conj=conj)
         except Exception as e:
             ctx.violate(site, tg + ["raises"], small, {"exception": repr(e)[:300]})
             continue
